@@ -14,6 +14,7 @@ import (
 	"database/sql"
 	"encoding/base64"
 	"encoding/json"
+	"errors"
 	"fmt"
 	"io"
 	"net"
@@ -23,6 +24,7 @@ import (
 	"strconv"
 	"strings"
 	"sync"
+	"sync/atomic"
 	"syscall"
 	"time"
 
@@ -314,19 +316,24 @@ func integrityCheck(path string) (string, error) {
 // realRestart starts the REAL cmd/omniwitness binary (built from the tree under test) on the store file, the
 // way an operator restarts the service after a crash, reads every log's checkpoint over its HTTP API and stops
 // it again. This is the only place where cmd/omniwitness/monolith.go's own way of opening the store runs.
+// errPortTrouble: the real binary could not get its listening port in any attempt - trouble of the harness, not of the code under test.
+var errPortTrouble = errors.New("could not find a free port for the real binary")
+
+var portCounter atomic.Int64
+
 func realRestart(bin, db string, w *World) (map[string][]byte, map[string]int, error) {
 	var lastErr error
-	for attempt := 0; attempt < 4; attempt++ {
+	for attempt := 0; attempt < 12; attempt++ {
 		out, status, retry, err := realRestartOnce(bin, db, w)
 		if err == nil {
 			return out, status, nil
 		}
 		lastErr = err
 		if !retry {
-			break
+			return nil, nil, lastErr
 		}
 	}
-	return nil, nil, lastErr
+	return nil, nil, fmt.Errorf("%w: %v", errPortTrouble, lastErr)
 }
 
 // lockedBuf is a bytes.Buffer that may be read while exec's copier goroutine writes to it.
@@ -348,12 +355,10 @@ func (l *lockedBuf) String() string {
 }
 
 func realRestartOnce(bin, db string, w *World) (map[string][]byte, map[string]int, bool, error) {
-	ln, err := net.Listen("tcp", "127.0.0.1:0")
-	if err != nil {
-		return nil, nil, true, err
-	}
-	addr := ln.Addr().String()
-	ln.Close()
+	// a port from a range of this process's own, below the kernel's ephemeral range: sixteen workers probing "any free port" and
+	// binding it a little later kept handing each other the same ports
+	port := 10000 + (int64(os.Getpid())*131+portCounter.Add(1)*7)%22000
+	addr := fmt.Sprintf("127.0.0.1:%d", port)
 	var se lockedBuf
 	cmd := exec.Command(bin, "--listen", addr, "--metrics_listen", "", "--db_file", db, "--private_key", w.WitKeys[0].Key.SignerString(),
 		"--poll_interval", "0", "--logtostderr")
